@@ -85,16 +85,20 @@ func match(doc, filter types.Value) (bool, error) {
 			if !ok {
 				return false, errors.WithMessagef(ErrUnsupportedType, "value: %v", value.Interface())
 			}
+			matched := false
 			for _, sub := range vals.Range() {
 				match, err := match(doc, sub)
 				if err != nil {
 					return false, err
 				}
 				if match {
-					return true, nil
+					matched = true
+					break
 				}
 			}
-			return false, nil
+			if !matched {
+				return false, nil
+			}
 		default:
 			return false, errors.WithMessagef(ErrUnsupportedOperation, "operation: %v", key.String())
 		}
